@@ -81,11 +81,20 @@ def grep_escapes(files):
     for f in files:
         incomment = False
         for i, line in enumerate(open(f, encoding="utf-8")):
-            code = line.split("--")[0]
-            if "/-" in code: incomment = True
-            if not incomment and ESCAPES.search(code):
+            # block comments and docstrings (`/-`, `/--`, `/-!` ... `-/`) are not code; text before the opener on the
+            # same line is; a line comment `--` ends the code part of a line
+            if not incomment and "/-" in line:
+                code = line.split("/-")[0]; incomment = True
+            elif incomment:
+                code = ""
+            else:
+                code = line.split("--")[0]
+            if ESCAPES.search(code):
                 hits.append("%s:%d" % (f, i + 1))
-            if "-/" in line: incomment = False
+            if incomment and "-/" in line:
+                tail = line.split("-/")[-1]
+                incomment = False
+                if "/-" not in tail and ESCAPES.search(tail.split("--")[0]): hits.append("%s:%d" % (f, i + 1))
     return hits
 
 def lean_files(rel_list):
